@@ -195,8 +195,17 @@ def run(tier, seed, replay):
         if rc2 != 0 or rc3 != 0:
             rep.violation("jwt-verify-rejects-large-token:stdin:%s" % ("over-BUFSIZ" if len(tok) >= 8191 else "under-BUFSIZ"),
                           "valid %d-byte token verifies as argument (rc %d) but not on stdin (rc %d / %d)" % (len(tok), rc1, rc2, rc3), dict(size=len(tok)))
+    # last line without a trailing newline: still a supplied token
+    for label, data, must_pass in (("good", good[0], True), ("good-then-good", good[0] + "\n" + good[1], True), ("bad", bad[0], False),
+                                   ("good-plus-junk-char", good[0] + "A", False), ("good-then-bad", good[0] + "\n" + bad[1], False)):
+        rc, _, e = sh([T["jwt-verify"], "-q", "-k", hkey, "-"], inp=data.encode())
+        rep.distinct.add(("stdin-no-final-newline", label))
+        rep.count("stdin_unterminated_cases")
+        if must_pass != (rc == 0):
+            rep.violation("jwt-verify-stdin-unterminated-last-line:%s" % label,
+                          "stdin whose last line has no trailing newline (%s): exit %d, expected %s" % (label, rc, "0" if must_pass else "non-zero"), dict(stderr=e[-300:]))
     # unjudged stdin shapes (recorded only)
-    for label, data in (("blank-line", good[0] + "\n\n" + good[1] + "\n"), ("crlf", good[0] + "\r\n"), ("no-final-newline", good[0])):
+    for label, data in (("blank-line", good[0] + "\n\n" + good[1] + "\n"), ("crlf", good[0] + "\r\n")):
         rc, _, _ = sh([T["jwt-verify"], "-q", "-k", hkey, "-"], inp=data.encode())
         rep.count("unjudged_stdin_%s_rc%d" % (label, rc))
     # key-less (alg none) lists
